@@ -21,11 +21,12 @@ RULE = ("parameter points: exponential a in (0.01,5], poisson mean in (0.05,30] 
         "parameters and evaluated interleaved, factories called positionally, by keyword or mixed (names read from the signature), always with pairs that differ only in a keyword-passed parameter; "
         "one case = one parameter point evaluated over its whole summed support; every point is non-trivial; "
         "distinct = SHA-1 of (distribution, parameters)")
+RULE += ("; rounds k-l added: " + 'exponential rates 40, 709, 710, 745, 746, 800, 5000; vector calls p(array) where the function accepts them (entries of in-support degrees compared with the scalar values; arrays starting, ending or interleaved with an out-of-support degree, uint8, float-typed, 2-d)')
 ASSUMPTIONS = ["oracle: 50-digit decimal closed forms; zeta/polylog by direct summation + Euler-Maclaurin tail",
                "tolerance for power laws = 1.5 * (mass of all series terms below 1e-6) / exact normaliser + 1e-12; closed forms 1e-12 relative",
                "Poisson evaluated for k <= 120 only (float overflow of k! beyond 170 is outside what is asserted)"]
 HEADLINE = ["points", "pointwise_decimal_checks", "pointwise_float_checks", "normalisation_checks", "exponential", "poisson", "power_law", "scale_free_cut_off", "history_callables", "history_evaluations", "factory_calls_with_keywords", "far_tail_evaluations", "typed_degree_checks", "vector_calls", "vector_entries_checked", "vector_calls_refused"]
-REQUIRED = {t: {"exponential": 5, "poisson": 5, "power_law": 5, "scale_free_cut_off": 5, "normalisation_checks": 20, "history_evaluations": 200}
+REQUIRED = {t: {"exponential": 5, "poisson": 5, "power_law": 5, "scale_free_cut_off": 5, "normalisation_checks": 20, "history_evaluations": 200, "vector_entries_checked": 1000}
             for t in ("quick", "thorough")}
 TOL_SERIES = 1e-6
 KMAX_POWER = 10000
